@@ -60,6 +60,7 @@ MESSAGES = [
     ('must be activated to be used for key wrapping', 'RState'),
     ('is not a symmetric key', 'RType'), ('is not a private key', 'RType'), ('is not a public key', 'RType'),
     ('encryption key information is not a key', 'RType'), ('is not a suitable type for key derivation', 'RType'),
+    ('Only keys and secret data can be wrapped', 'RType'),
     ('bit must be set', 'RMask'), ('MAC Generate must be set', 'RMask'),
     ('Wrapping key does not exist', 'RWrapKeyMissing'),
     ('The cryptographic parameters must be specified', 'RParams'),
@@ -73,6 +74,9 @@ RIGHT_KIND = {'Encrypt': ('SYMMETRIC_KEY',), 'Decrypt': ('SYMMETRIC_KEY',), 'Sig
 NEEDED_BIT = {'Encrypt': 'ENCRYPT', 'Decrypt': 'DECRYPT', 'Sign': 'SIGN', 'SignatureVerify': 'VERIFY',
               'MAC': 'MAC_GENERATE', 'GetWrap': 'WRAP_KEY', 'DeriveKey': 'DERIVE_KEY'}
 ATTRS = ['Object Type', 'State', 'Cryptographic Usage Mask']
+PSEUDO = ('Version', 'Restart', 'Batch')
+VERSIONS = [(1, 2), (1, 3), (1, 4), (2, 0)]       # the versions under which every operation of the alphabet exists
+ALLBITS = sum(e.value for e in M)
 
 
 def mask_list(m):
@@ -127,6 +131,9 @@ class Runner:
         self.histories = 0
         self.crypto = None
         self.sql = None
+        self.in_batch = False
+        self.item_index = -1
+        self.crypto_by_item = {}
 
     def fresh(self):
         if self.eng is not None:
@@ -140,6 +147,11 @@ class Runner:
         if self.sql is not None:
             self.sql.close()
         self.sql = sqlite3.connect(self.eng.path, isolation_level=None)
+        self.version = (1, 2)
+        self.instrument()
+
+    def instrument(self):
+        """Attach the recorders to the current KmipEngine object (again after a restart)."""
         ce = self.eng.engine._cryptography_engine
         runner = self
         mat = self.mat
@@ -153,13 +165,24 @@ class Runner:
             orig = getattr(ce, name)
 
             def wrapped(*a, _orig=orig, _name=name, **kw):
-                runner.crypto = {'called': _name, 'raised': None}
+                rec = {'called': _name, 'raised': None}
+                runner.crypto = rec
+                if runner.in_batch:
+                    runner.crypto_by_item[runner.item_index] = rec
                 try:
                     return _orig(*a, **kw)
                 except BaseException as e:
-                    runner.crypto['raised'] = type(e).__name__
+                    rec['raised'] = type(e).__name__
                     raise
             setattr(ce, name, wrapped)
+        # position of the batch item being processed (for attributing crypto calls inside a batch)
+        orig_po = type(self.eng.engine)._process_operation
+        eng_obj = self.eng.engine
+
+        def process_operation(operation, payload):
+            runner.item_index += 1
+            return orig_po(eng_obj, operation, payload)
+        eng_obj._process_operation = process_operation
 
     def close(self):
         if self.sql is not None:
@@ -171,9 +194,11 @@ class Runner:
 
     # ---- building real requests
     def uid(self, k):
+        if k == 'P':
+            return None             # the request omits the identifier: the engine uses its ID placeholder
         return '0' if k < 0 else str(self.base + k)
 
-    def build(self, op):
+    def build(self, op, via_placeholder=False):
         kind = op[0]
         u = self.uid
         if kind == 'Create':
@@ -210,7 +235,7 @@ class Runner:
         if kind == 'MAC':
             p = kdrv.crypto_params(cryptographic_algorithm=ALG.HMAC_SHA256) if op[2] else None
             return (OP.MAC, payloads.MACRequestPayload(
-                unique_identifier=cattrs.UniqueIdentifier(u(op[1])), cryptographic_parameters=p,
+                unique_identifier=(cattrs.UniqueIdentifier(u(op[1])) if u(op[1]) is not None else None), cryptographic_parameters=p,
                 data=(cobjects.Data(b'data to mac') if op[3] else None)))
         if kind == 'DeriveKey':
             dp = cattrs.DerivationParameters(
@@ -234,24 +259,27 @@ class Runner:
         uids = sorted(set(uids))
         if not uids:
             return out
-        req = self.eng.build([kdrv.get_attributes(str(x), ATTRS) for x in uids],
+        req = self.eng.build([kdrv.get_attributes(str(x), ATTRS) for x in uids], version=self.version,
                              batch_option=enums.BatchErrorContinuationOption.CONTINUE, ids=True)
         resp, _, _ = self.eng.engine.process_request(req, ('alice', None))
         items = resp.batch_items
         if len(items) != len(uids):
             raise RuntimeError('GetAttributes batch answered %d of %d items' % (len(items), len(uids)))
         for x, bi in zip(uids, items):
-            if bi.result_status.value != enums.ResultStatus.SUCCESS:
-                if bi.result_reason.value == enums.ResultReason.ITEM_NOT_FOUND:
-                    out[x] = None
-                    continue
-                raise RuntimeError('GetAttributes on %d failed: %s' % (x, bi.result_reason.value.name))
-            d = {}
-            for a in bi.response_payload.attributes:
-                d[a.attribute_name.value] = a.attribute_value.value
-            st = d.get('State')
-            out[x] = (d['Object Type'].name, st.name if st is not None else None, int(d.get('Cryptographic Usage Mask', 0)))
+            out[x] = self.read_ga_item(x, bi)
         return out
+
+    @staticmethod
+    def read_ga_item(x, bi):
+        if bi.result_status.value != enums.ResultStatus.SUCCESS:
+            if bi.result_reason.value == enums.ResultReason.ITEM_NOT_FOUND:
+                return None
+            raise RuntimeError('GetAttributes on %d failed: %s' % (x, bi.result_reason.value.name))
+        d = {}
+        for a in bi.response_payload.attributes:
+            d[a.attribute_name.value] = a.attribute_value.value
+        st = d.get('State')
+        return (d['Object Type'].name, st.name if st is not None else None, int(d.get('Cryptographic Usage Mask', 0)))
 
     def sql_view(self, last):
         """The same triple for every object of the window, read from the tables (managed_objects left join crypto_objects)."""
@@ -289,38 +317,126 @@ class Runner:
         return ('Other',)
 
     def run(self, ops):
-        """Run one history.  -> {'base', 'steps': [...]}; each step has before/after views for the oracle."""
+        """Run one history.  -> {'base', 'steps': [...]}; each step has before/after views for the oracle.
+        Pseudo-operations: ('Version', v), ('Restart',), ('Batch', n): the next n operations travel in ONE request
+        (batch error continuation option Continue); inside a batch an operation may address 'P', the ID placeholder
+        (the object the preceding creating operation of the same request made)."""
         if self.eng is None or self.histories >= 400:
             self.fresh()
         self.histories += 1
         base = self.base
-        last = base - 1
-        steps = []
-        before = {}
-        for n, op in enumerate(ops):
-            self.crypto = None
-            r = self.eng.request([self.build(op)])
-            if r['error'] is not None:
-                raise RuntimeError('request-level error for %r: %r' % (op, r['error']))
-            item = r['items'][0]
-            crypto = self.crypto
-            new = []
-            if kdrv.ok(item):
-                p = item['payload'] or {}
-                if op[0] == 'CreateKeyPair':
-                    new = [int(p['public_key_unique_identifier']), int(p['private_key_unique_identifier'])]
-                elif op[0] in ('Create', 'Register', 'DeriveKey'):
-                    new = [int(p['unique_identifier'])]
-                if new:
-                    last = max([last] + new)
-            after = self.view(last, new + [base + k for k in refs(op) if k >= 0], full=(n == len(ops) - 1))
-            steps.append({'op': op, 'cok': not (crypto and crypto['raised']), 'out': self.classify(item, crypto),
-                          'called': crypto is not None, 'status': item['status'], 'reason': item['reason'],
-                          'message': item['message'], 'before': before, 'after': after,
-                          'crypto': crypto})
-            before = after
-        self.base = last + 1
-        return {'base': base, 'steps': steps}
+        self.last = base - 1
+        self.steps = []
+        self.before = {}
+        self.version = (1, 2)
+        real = [i for i, op in enumerate(ops) if op[0] not in PSEUDO]
+        n = 0
+        while n < len(ops):
+            op = ops[n]
+            if op[0] == 'Version':          # protocol version of the following requests
+                self.version = tuple(op[1])
+                n += 1
+            elif op[0] == 'Restart':        # a new KmipEngine object on the same database
+                self.eng.restart()
+                self.instrument()
+                n += 1
+            elif op[0] == 'Batch':
+                group = ops[n + 1:n + 1 + op[1]]
+                if any(g[0] in PSEUDO for g in group) or not group:
+                    raise ValueError('malformed batch in history: %r' % (ops,))
+                self.run_batch(base, group)
+                n += 1 + len(group)
+            else:
+                self.run_single(base, op, full=(n == real[-1]))
+                n += 1
+            for st in self.steps:
+                st.setdefault('src_end', n)
+        self.base = self.last + 1
+        return {'base': base, 'steps': self.steps}
+
+    def new_uids(self, op, item):
+        if not kdrv.ok(item):
+            return []
+        p = item['payload'] or {}
+        if op[0] == 'CreateKeyPair':
+            return [int(p['public_key_unique_identifier']), int(p['private_key_unique_identifier'])]
+        if op[0] in ('Create', 'Register', 'DeriveKey'):
+            return [int(p['unique_identifier'])]
+        return []
+
+    def run_single(self, base, op, full=False):
+        self.crypto = None
+        r = self.eng.request([self.build(op)], version=self.version)
+        if r['error'] is not None:
+            raise RuntimeError('request-level error for %r: %r' % (op, r['error']))
+        item = r['items'][0]
+        crypto = self.crypto
+        new = self.new_uids(op, item)
+        self.last = max([self.last] + new)
+        after = self.view(self.last, new + [base + k for k in refs(op) if k >= 0], full=full)
+        self.steps.append({'op': op, 'cok': not (crypto and crypto['raised']), 'out': self.classify(item, crypto),
+                           'called': crypto is not None, 'status': item['status'], 'reason': item['reason'],
+                           'message': item['message'], 'before': self.before, 'after': after, 'crypto': crypto})
+        self.before = after
+
+    def run_batch(self, base, group):
+        """One request: op1, GetAttributes of the whole window, op2, GetAttributes..., with Continue."""
+        # identifiers are predictable (autoincrement); the prediction is checked against the responses below
+        predicted_last = self.last
+        window_end = self.last + sum(2 if g[0] == 'CreateKeyPair' else 1 for g in group if g[0] in ('Create', 'CreateKeyPair', 'Register', 'DeriveKey'))
+        window = list(range(base, window_end + 1))
+        items, layout, resolved = [], [], []
+        placeholder = None
+        for g in group:
+            g2 = g
+            if any(k == 'P' for k in refs(g) if not isinstance(k, list)):
+                if placeholder is None:
+                    raise ValueError('placeholder used before a creating operation in the batch: %r' % (group,))
+                g2 = tuple((placeholder - base) if (i > 0 and x == 'P') else x for i, x in enumerate(g))
+            resolved.append(g2)
+            items.append(self.build(g, via_placeholder=(g is not g2)))
+            layout.append(('op', len(resolved) - 1))
+            if g[0] in ('Create', 'Register'):
+                predicted_last += 1
+                placeholder = predicted_last
+            elif g[0] == 'CreateKeyPair':
+                predicted_last += 2
+                placeholder = predicted_last          # the private key
+            elif g[0] == 'DeriveKey':
+                placeholder = None                    # may fail; the generator does not use the placeholder after it
+            for x in window:
+                items.append(kdrv.get_attributes(str(x), ATTRS))
+                layout.append(('ga', x))
+        self.crypto_by_item = {}
+        self.item_index = -1
+        self.in_batch = True
+        try:
+            req = self.eng.build(items, version=self.version, batch_option=enums.BatchErrorContinuationOption.CONTINUE, ids=True)
+            resp, _, _ = self.eng.engine.process_request(req, ('alice', None))
+        finally:
+            self.in_batch = False
+        if len(resp.batch_items) != len(items):
+            raise RuntimeError('batch answered %d of %d items' % (len(resp.batch_items), len(items)))
+        views, cur = [], None
+        for idx, ((kind, arg), bi) in enumerate(zip(layout, resp.batch_items)):
+            if kind == 'op':
+                cur = {'k': arg, 'item': kdrv.project_item(bi), 'crypto': self.crypto_by_item.get(idx), 'view': {}}
+                views.append(cur)
+            else:
+                cur['view'][arg] = self.read_ga_item(arg, bi)
+        for v in views:
+            op = resolved[v['k']]
+            item, crypto = v['item'], v['crypto']
+            new = self.new_uids(op, item)
+            if new and new[0] != self.last + 1:
+                raise RuntimeError('identifier %r issued where %d was predicted' % (new, self.last + 1))
+            self.last = max([self.last] + new)
+            after = {x: a for x, a in v['view'].items() if x <= self.last or a is not None}
+            self.steps.append({'op': op, 'cok': not (crypto and crypto['raised']), 'out': self.classify(item, crypto),
+                               'called': crypto is not None, 'status': item['status'], 'reason': item['reason'],
+                               'message': item['message'], 'before': self.before, 'after': after, 'crypto': crypto,
+                               'in_batch': True})
+            self.before = after
 
 
 # ---------------------------------------------------------------------------------------- direct oracle (property text)
@@ -509,8 +625,9 @@ def grid():
                 continue
             for ri, route in enumerate(reach(state)):
                 for opname, bitname in uses.items():
-                    for mclass in (('full', 'only', 'lacking', 'zero') if ri == 0 else ('full',)):
-                        m = {'full': FULL, 'only': BIT[bitname], 'lacking': FULL & ~BIT[bitname], 'zero': 0}[mclass]
+                    for mclass in (('full', 'only', 'lacking', 'zero', 'allbits', 'others') if ri == 0 else ('full',)):
+                        m = {'full': FULL, 'only': BIT[bitname], 'lacking': FULL & ~BIT[bitname], 'zero': 0, 'allbits': ALLBITS,
+                             'others': ALLBITS & ~BIT[bitname]}[mclass]
                         # object 0: the object under test; object 1: an active fully-masked symmetric key
                         setup = [('Register', t, m), ('Create', FULL), ('Activate', 1)] + route
                         if opname in ('Encrypt', 'Decrypt', 'Sign', 'SignatureVerify'):
@@ -525,13 +642,32 @@ def grid():
                             tests = [('GetWrap', 1, 0), ('GetWrap', 0, 0)]
                             if mclass == 'full':
                                 tests += [('GetWrap', 0, 1), ('GetWrap', 1, -1), ('GetWrap', -1, 0)]
-                        if ri > 0 or mclass in ('only', 'zero'):
+                        if ri > 0 or mclass in ('only', 'zero', 'allbits', 'others'):
                             tests = tests[:1]
                         for tst in tests:
-                            out.append(('grid', setup + [tst]))
+                            ver = VERSIONS[len(out) % len(VERSIONS)]
+                            out.append(('grid', [('Version', ver)] + setup + [tst]))
                 # lifecycle operations after every route
                 for tst in [('Activate', 0), ('Destroy', 0)] + [('Revoke', 0, c) for c in CODES]:
                     out.append(('grid', [('Register', t, FULL)] + route + [tst, ('Activate', 0), ('Destroy', 0)]))
+    return out
+
+
+def batch_family():
+    """Create/Register/CreateKeyPair and lifecycle + use of the new object through the ID placeholder in ONE request."""
+    out = []
+    firsts = [('Create', FULL), ('CreateKeyPair', FULL, FULL)] + [('Register', t, FULL) for t in TYPES]
+    uses = [('Encrypt', 'P', T), ('Decrypt', 'P', T), ('Sign', 'P', T), ('SignatureVerify', 'P', T), ('MAC', 'P', T, T)]
+    for f in firsts:
+        off = 1 if f[0] == 'CreateKeyPair' else 0        # the placeholder after CreateKeyPair is the private key
+        for use in uses:
+            use0 = use[:1] + (off,) + use[2:]
+            out.append(('batch', [('Batch', 3), f, use, ('Activate', 'P'), use0]))                     # use before activation, then alone
+            out.append(('batch', [('Batch', 5), f, ('Activate', 'P'), use, ('Destroy', 'P'), use]))
+            out.append(('batch', [('Batch', 5), f, ('Activate', 'P'), ('Revoke', 'P', CA), use, ('Activate', 'P')]))
+            out.append(('batch', [f, ('Batch', 4), ('Activate', off), use0, ('Revoke', off, KC), use0]))
+        out.append(('batch', [('Batch', 4), f, ('Revoke', 'P', KC), ('Activate', 'P'), ('Destroy', 'P')]))
+        out.append(('batch', [('Batch', 3), f, ('Activate', 'P'), ('Destroy', 'P'), ('Revoke', off, CESS), ('Destroy', off)]))
     return out
 
 
@@ -541,6 +677,14 @@ def random_history(rng, length):
     objs = []          # [type name] per offset; may be destroyed - the generator does not care much
     masks = ([FULL] * 6 + [0, BIT['ENCRYPT'] | BIT['DECRYPT'], BIT['SIGN'] | BIT['VERIFY'], BIT['MAC_GENERATE'] | BIT['WRAP_KEY']]
              + [b for b in BIT.values()] + [FULL & ~b for b in BIT.values()])
+
+    def rmask():
+        if rng.random() < 0.3:          # any subset of the 22 defined bits
+            return sum(e.value for e in M if rng.random() < 0.5)
+        return rng.choice(masks)
+    if rng.random() < 0.6:
+        ops.append(('Version', rng.choice(VERSIONS)))
+    length += len(ops)
 
     def pick():
         if not objs or rng.random() < 0.04:
@@ -552,18 +696,48 @@ def random_history(rng, length):
         return rng.choice(c) if c and rng.random() < 0.8 else pick()
     while len(ops) < length:
         r = rng.random()
+        if objs and rng.random() < 0.03:
+            ops.append(('Restart',) if rng.random() < 0.5 else ('Version', rng.choice(VERSIONS)))
+            length += 1
+            continue
         if len(objs) < 2 or (r < 0.12 and len(objs) < 7):
             q = rng.random()
+            if rng.random() < 0.25 and len(objs) < 6:
+                # a creating operation followed, in the same request, by operations on the ID placeholder / other objects
+                t = rng.choice(list(TYPES))
+                first = rng.choice([('Create', rmask()), ('Register', t, rmask()), ('CreateKeyPair', rmask(), rmask())])
+                tail = []
+                for _ in range(rng.randint(1, 3)):
+                    who = 'P' if rng.random() < 0.7 else pick()
+                    tail.append(rng.choice([('Activate', who), ('Revoke', who, rng.choice(list(CODES))), ('Destroy', who),
+                                            ('Encrypt', who, True), ('Decrypt', who, True), ('Sign', who, True),
+                                            ('SignatureVerify', who, True), ('MAC', who, True, True)]))
+                ops.append(('Batch', 1 + len(tail)))
+                ops.append(first)
+                ops += tail
+                objs += (['PublicKey', 'PrivateKey'] if first[0] == 'CreateKeyPair' else ['SymmetricKey' if first[0] == 'Create' else t])
+                length += 1
+                continue
             if q < 0.4:
-                ops.append(('Create', rng.choice(masks)))
+                ops.append(('Create', rmask()))
                 objs.append('SymmetricKey')
             elif q < 0.55 and len(objs) < 6:
-                ops.append(('CreateKeyPair', rng.choice(masks), rng.choice(masks)))
+                ops.append(('CreateKeyPair', rmask(), rmask()))
                 objs += ['PublicKey', 'PrivateKey']
             else:
                 t = rng.choice(list(TYPES))
-                ops.append(('Register', t, rng.choice(masks)))
+                ops.append(('Register', t, rmask()))
                 objs.append(t)
+        elif r < 0.04 + 0.12 and len(objs) >= 2:
+            # several operations on existing objects in one request
+            k = rng.randint(2, 4)
+            ops.append(('Batch', k))
+            for _ in range(k):
+                who = pick()
+                ops.append(rng.choice([('Activate', who), ('Revoke', who, rng.choice(list(CODES))), ('Destroy', who),
+                                       ('Encrypt', who, True), ('Decrypt', who, True), ('Sign', who, True),
+                                       ('SignatureVerify', who, True), ('MAC', who, True, True), ('GetWrap', who, pick())]))
+            length += 1
         elif r < 0.30:
             ops.append(('Activate', pick()))
         elif r < 0.44:
@@ -582,7 +756,7 @@ def random_history(rng, length):
             ops.append(('MAC', pick(), rng.random() < 0.7, rng.random() < 0.9))
         elif r < 0.93 and len(objs) < 7:
             n = rng.choice([1, 1, 1, 2, 2, 3, 0]) if rng.random() < 0.5 else 1
-            ops.append(('DeriveKey', [pick_type(['SymmetricKey', 'SecretData', 'PrivateKey', 'PublicKey']) for _ in range(n)], rng.choice(masks)))
+            ops.append(('DeriveKey', [pick_type(['SymmetricKey', 'SecretData', 'PrivateKey', 'PublicKey']) for _ in range(n)], rmask()))
             objs.append('SymmetricKey')      # if it succeeds; otherwise the offsets of the generator drift, which is harmless
         else:
             ops.append(('GetWrap', pick(), pick_type(['SymmetricKey'])))
@@ -598,6 +772,7 @@ def all_histories(ctx):
         for seq in itertools.product(alphabet, repeat=depth):
             hs.append((name, list(setup) + list(seq)))
     hs += grid()
+    hs += batch_family()
     rng = ctx.subrng('histories')
     n = 800 if ctx.tier == 'thorough' else 150
     for i in range(n):
@@ -615,7 +790,7 @@ CORPUS = [
      ('GetWrap', 0, 0), ('DeriveKey', [0], FULL), ('Destroy', 0), ('Encrypt', 0, T)],
     [('CreateKeyPair', FULL, FULL), ('Sign', 1, T), ('SignatureVerify', 0, T), ('Activate', 0), ('Activate', 1), ('Sign', 1, T), ('SignatureVerify', 0, T),
      ('Sign', 0, T), ('SignatureVerify', 1, T), ('Revoke', 1, KC), ('Sign', 1, T), ('Revoke', 0, UNSP), ('SignatureVerify', 0, T)],
-    # wrapping a certificate / opaque object: the crypto call succeeds, building the answer does not
+    # wrapping a certificate / opaque object, MAC with an opaque object (general failures before the fix: commits)
     [('Register', 'Certificate', FULL), ('Register', 'OpaqueData', 0), ('Create', FULL), ('Activate', 2), ('GetWrap', 0, 2), ('GetWrap', 1, 2),
      ('MAC', 1, T, T), ('MAC', 1, False, T), ('Activate', 1), ('Revoke', 1, KC), ('Destroy', 1)],
 ]
@@ -700,12 +875,28 @@ def shrink(ctx, ops, sig):
         if 'error' in res:
             return False
         return any(s == sig for _, s, _ in oracle_history(res))
+    def removable(h):
+        """Indices whose removal leaves a well-formed history with the same meaning of offsets."""
+        inside, out = set(), []
+        for i, o in enumerate(h):
+            if o[0] == 'Batch':
+                inside.update(range(i + 1, i + 1 + o[1]))
+        for i, o in enumerate(h):
+            if o[0] == 'Batch':
+                group = h[i + 1:i + 1 + o[1]]
+                if not any('P' in [x for x in g[1:] if not isinstance(x, list)] for g in group):
+                    out.append(i)           # dissolving a batch: its operations become single requests
+            elif i in inside or o[0] in ('Create', 'CreateKeyPair', 'Register', 'DeriveKey'):
+                continue
+            else:
+                out.append(i)
+        return out
     cur = list(ops)
     changed = True
     while changed and len(cur) > 1:
         changed = False
-        for i in range(len(cur) - 1, -1, -1):
-            if cur[i][0] in ('Create', 'CreateKeyPair', 'Register', 'DeriveKey'):
+        for i in sorted(removable(cur), reverse=True):
+            if i >= len(cur) or i not in removable(cur):
                 continue
             cand = cur[:i] + cur[i + 1:]
             if cand and fails(cand):
@@ -796,7 +987,7 @@ def run(ctx):
     # report oracle hits (shrunk when new)
     for key, (i, step, sig, what) in sorted(first_violation.items()):
         res = results[i]
-        ops = [s['op'] for s in res['steps'][:step + 1]]
+        ops = list(histories[i][1][:res['steps'][step]['src_end']])
         witness = {'history': [list(o) for o in ops], 'failing_step': step, 'observed': jsonable(res, step),
                    'expected': 'the property statement: ' + what + ' must not happen'}
         known = any(f.get('status') == 'known' and all(sig.get(k) == v for k, v in f['signature'].items()) for f in ctx.findings)
